@@ -169,18 +169,24 @@ type TopLevel struct {
 
 const evalHangAfter = 120 * time.Second
 
+// HangGuard: a call into the real code that never returns ends the process with a recognisable exit status
+// (5, "VERIF-HANG:" on stderr) instead of leaving the check to its outer timeout.
+func HangGuard(what string) func() {
+	wd := time.AfterFunc(evalHangAfter, func() {
+		fmt.Fprintf(os.Stderr, "VERIF-HANG: %s did not return within %v\n", what, evalHangAfter)
+		os.Exit(5)
+	})
+	return func() { wd.Stop() }
+}
+
 func ResolveTop(r *formula.Runner, e formula.Expression) TopLevel {
 	installHooks()
 	ob := &rootObs{root: e}
 	rootWatch.Store(r, ob)
 	defer rootWatch.Delete(r)
-	// an evaluation that never returns ends the process with a recognisable exit status
-	wd := time.AfterFunc(evalHangAfter, func() {
-		fmt.Fprintf(os.Stderr, "VERIF-HANG: an evaluation did not return within %v\n", evalHangAfter)
-		os.Exit(5)
-	})
+	done := HangGuard("an evaluation")
 	v, err := safeResolve(r, e)
-	wd.Stop()
+	done()
 	t := TopLevel{Val: v, Err: err, Root: ob.res, RootOK: ob.seen && ob.err == nil}
 	if pe, ok := err.(panicError); ok {
 		t.Panic = pe.v
